@@ -656,6 +656,16 @@ func c3RegHonest(c *c3Case) bool {
 }
 
 func c3RunCase(t *testing.T, out *zzverif.Out, c *c3Case) {
+	// A panic on the download goroutine runs its deferred close(b.done) first, so while the process is
+	// dying PullModel's own goroutine wakes up and may still run the verify loop (and remove blobs)
+	// before exit: the store after such a death is racy by nature.  Such an attempt therefore ends
+	// its history, and its store is not compared (see normalize in vlib/checks/c03.py).
+	for i := range c.attempts {
+		if c3NeedsChild(&c.attempts[i]) {
+			c.attempts = c.attempts[:i+1]
+			break
+		}
+	}
 	c.fixUniv()
 	line := c.line()
 	home := t.TempDir()
@@ -663,6 +673,7 @@ func c3RunCase(t *testing.T, out *zzverif.Out, c *c3Case) {
 	c3Materialise(c, models)
 	before := c3ReadDisk(models)
 	initialGood := c3DiskGood(before)
+	reportedCorrupt := map[string]bool{} // layers already reported as installed corrupt by an earlier attempt of this history
 	blobOrigin := map[string]string{} // how a blob that was not in the initial store got its final name
 	var obs []string
 	lastClass := ""
@@ -694,6 +705,10 @@ func c3RunCase(t *testing.T, out *zzverif.Out, c *c3Case) {
 		// ---- L2: no registry response crashes the server
 		if strings.HasPrefix(res.class, "panic") {
 			out.L2("panic", line, c3AttemptPanicDetail(a, res.class)+" "+where)
+		}
+		if res.died {
+			out.Count("attempts_died_in_child")
+			break
 		}
 		// ---- L2: success => exactly the published, digest-verified model
 		reported := false
@@ -729,6 +744,7 @@ func c3RunCase(t *testing.T, out *zzverif.Out, c *c3Case) {
 					if origin != "preexisting" || initialGood {
 						out.L2("success-corrupt-layer", line, "layer="+l.ref[:12]+" origin="+origin+" "+where)
 					}
+					reportedCorrupt[l.ref] = true
 					reported = true
 				case int64(len(b)) != l.size:
 					out.L2("success-size-mismatch", line, fmt.Sprintf("layer=%s manifest-size-lie declared=%d actual=%d %s", l.ref[:12], l.size, len(b), where))
@@ -779,7 +795,7 @@ func c3RunCase(t *testing.T, out *zzverif.Out, c *c3Case) {
 					b, ok := after.blobs[ref]
 					if !ok {
 						out.L2("name-resolves-broken", line, fmt.Sprintf("name=%d layer=%s missing %s", id, c3Short(ref), where))
-					} else if c3Sha(b) != ref && !(id == c.name && res.class == "ok") {
+					} else if c3Sha(b) != ref && !(id == c.name && res.class == "ok") && !reportedCorrupt[ref] {
 						out.L2("name-resolves-broken", line, fmt.Sprintf("name=%d layer=%s corrupt %s", id, c3Short(ref), where))
 					}
 				}
@@ -841,7 +857,7 @@ func c3RunChild(t *testing.T, line, models, home string, ai int) c3Result {
 	} else {
 		class = "child-failed:" + strings.ReplaceAll(string(outb[max(0, len(outb)-300):]), " ", "_")
 	}
-	return c3Result{class: class, counts: string(cnt)}
+	return c3Result{class: class, counts: string(cnt), died: true}
 }
 
 func TestVerifC03Child(t *testing.T) {
